@@ -217,4 +217,53 @@ theorem sat_of_allZeroOn (c : Con) (vars : List Nat) (x y : Val)
   unfold Con.sat Con.eval
   rw [this]
 
+/-! ### `all_zeroes` as executed implies independence -/
+
+theorem at_eq_zero_of_dim_le (c : Con) (i : Nat) (h : conDim c ≤ i) : c.at i = 0 := by
+  unfold conDim at h
+  unfold Con.at
+  have hsplit : c.coeffs = (c.coeffs.reverse.dropWhile (· == 0)).reverse ++ (c.coeffs.reverse.takeWhile (· == 0)).reverse := by
+    have := List.takeWhile_append_dropWhile (p := (· == 0)) (l := c.coeffs.reverse)
+    have h2 := congrArg List.reverse this
+    rw [List.reverse_append, List.reverse_reverse] at h2
+    exact h2.symm
+  rw [hsplit, List.getD_eq_getElem?_getD, List.getElem?_append_right (by simpa using h)]
+  cases hget : ((c.coeffs.reverse.takeWhile (· == 0)).reverse)[i - (c.coeffs.reverse.dropWhile (· == 0)).reverse.length]? with
+  | none => rfl
+  | some a =>
+    have hm : a ∈ (c.coeffs.reverse.takeWhile (· == 0)).reverse := List.mem_of_getElem? hget
+    rw [List.mem_reverse] at hm
+    have := List.mem_takeWhile_imp hm
+    simpa using this
+
+theorem dim_le_guardSpaceDim (cs : List Con) (c : Con) (hc : c ∈ cs) : conDim c ≤ guardSpaceDim cs := by
+  unfold guardSpaceDim
+  have key : ∀ (l : List Con) (m : Nat), m ≤ l.foldl (fun m c => max m (conDim c)) m ∧
+      ∀ c ∈ l, conDim c ≤ l.foldl (fun m c => max m (conDim c)) m := by
+    intro l
+    induction l with
+    | nil => intro m; exact ⟨Nat.le_refl _, fun c hc => by cases hc⟩
+    | cons a as ih =>
+      intro m
+      simp only [List.foldl_cons]
+      obtain ⟨h1, h2⟩ := ih (max m (conDim a))
+      refine ⟨Nat.le_trans (Nat.le_max_left _ _) h1, ?_⟩
+      intro c hc
+      rcases List.mem_cons.mp hc with rfl | hc
+      · exact Nat.le_trans (Nat.le_max_right _ _) h1
+      · exact h2 c hc
+  exact (key cs 0).2 c hc
+
+theorem allZeroOn_of_asRead (cs : List Con) (eps : Bool) (c : Con) (hc : c ∈ cs) (vars : List Nat)
+    (h : allZeroesAsRead (guardSpaceDim cs) eps c vars = true) : Con.allZeroOn c vars = true := by
+  unfold allZeroesAsRead at h
+  unfold Con.allZeroOn
+  rw [List.all_eq_true] at h ⊢
+  intro i hi
+  have := h i hi
+  by_cases hlt : i < guardSpaceDim cs
+  · rw [if_pos hlt] at this; exact this
+  · have : c.at i = 0 := at_eq_zero_of_dim_le c i (Nat.le_trans (dim_le_guardSpaceDim cs c hc) (by omega))
+    simp [this]
+
 end PPLV.Wrap
